@@ -246,7 +246,7 @@ def function_interpolate(function, x, eps = 1e-9, start_tens = None, nswp = 20, 
             radd = Rtemp.shape[1] - rnew
             if radd>0: 
                 V =  tn.cat( (V,tn.zeros((radd,V.shape[1]), dtype = dtype, device = device)) , 0 )
-                V = Rtemp @ V
+            V = Rtemp @ V
             
             # print('kkt new',tn.linalg.norm(supercore-U@V))
             # compute err (dx)
@@ -344,8 +344,8 @@ def function_interpolate(function, x, eps = 1e-9, start_tens = None, nswp = 20, 
             # print('V after QR',V.shape,Rtemp.shape,radd)
             if radd>0:
                 U =  tn.cat( (U,tn.zeros((U.shape[0],radd), dtype = dtype, device = device)) , 1 ) 
-                U = U @ Rtemp.T
-                V = V.t()
+            U = U @ Rtemp.T
+            V = V.t()
             
             # print('kkt new',tn.linalg.norm(supercore-U@V))
             # compute err (dx)
@@ -538,7 +538,7 @@ def dmrg_cross(function, N, eps = 1e-9, nswp = 10, x_start = None, kick = 2, dty
             radd = Rtemp.shape[1] - rnew
             if radd>0: 
                 V =  tn.cat( (V,tn.zeros((radd,V.shape[1]), dtype = dtype, device = device)) , 0 )
-                V = Rtemp @ V
+            V = Rtemp @ V
             # print('kkt new',tn.linalg.norm(supercore-U@V))
             # compute err (dx)
             super_prev = tn.einsum('ijk,kmn->ijmn',cores[k],cores[k+1])
@@ -620,8 +620,8 @@ def dmrg_cross(function, N, eps = 1e-9, nswp = 10, x_start = None, kick = 2, dty
             radd = Rtemp.shape[1] - rnew
             if radd>0:
                 U =  tn.cat( (U,tn.zeros((U.shape[0],radd), dtype = dtype, device = device)) , 1 ) 
-                U = U @ Rtemp.T
-                V = V.t()
+            U = U @ Rtemp.T
+            V = V.t()
             
             # print('kkt new',tn.linalg.norm(supercore-U@V))
             # compute err (dx)
